@@ -92,6 +92,31 @@ fn hint_mask_axes() -> Vec<(String, RunCfg)> {
         .collect()
 }
 
+/// the given subsets of packages answer hints = All, the others None
+fn hint_masks(masks: &[u64]) -> Vec<(String, RunCfg)> {
+    masks
+        .iter()
+        .map(|&m| {
+            (
+                format!("sync hints on packages {:04b}", m),
+                RunCfg {
+                    hint_mask: Some(m),
+                    ..RunCfg::default()
+                },
+            )
+        })
+        .collect()
+}
+
+/// F10 (late reveal) under per-package hint patterns: quick = none, p only, z+p, q+p, all; thorough = all 16
+fn f10_axes(q: bool) -> Vec<(String, RunCfg)> {
+    if q {
+        hint_masks(&[0, 8, 12, 10, 15])
+    } else {
+        hint_masks(&(0u64..16).collect::<Vec<_>>())
+    }
+}
+
 fn two_axes() -> Vec<(String, RunCfg)> {
     named(vec![("sync", sync_cfg()), ("sync hints=All", hint_cfg(Hint::All))])
 }
@@ -227,6 +252,7 @@ fn e1_plan(prop: P, tier: &Tier) -> Vec<PlanItem> {
                 v.push(item(f3(3, false), two_axes(), 1));
             }
             v.push(item(Box::new(F9 { wide: !q }), hint_mask_axes(), if q { 1 } else { 4 }));
+            v.push(item(Box::new(F10), f10_axes(q), 1));
             if q {
                 v.push(item(
                     Box::new(Grid::f1_prime().with_fixed(vec![(1, 2, 3), (2, 3, 3)])),
@@ -272,6 +298,7 @@ fn e1_plan(prop: P, tier: &Tier) -> Vec<PlanItem> {
                 ),
             ];
             v.push(item(Box::new(F9 { wide: false }), two_axes(), if q { 2 } else { 1 }));
+            v.push(item(Box::new(F10), hint_masks(&[0, 8, 15]), 1));
             if prop == P::C04 {
                 v.push(item(
                     Box::new(Decorated::new_with("F5 soft skeletons", soft_skeletons(), f5k(q), false, &f5_filter)),
@@ -305,6 +332,7 @@ fn e1_plan(prop: P, tier: &Tier) -> Vec<PlanItem> {
                 item(f4(tier), named(vec![("sync", sync_cfg())]), 1),
                 item(f3_filtered(2, &|d| !matches!(d, Deco::AddUnion(Src::Root, _) | Deco::Soft(_))), two_axes(), 1),
             ];
+            v.push(item(Box::new(F10), f10_axes(q), 1));
             if !q {
                 v.push(item(f3_filtered(3, &|d| !matches!(d, Deco::AddUnion(Src::Root, _) | Deco::Soft(_))), named(vec![("sync", sync_cfg())]), 1));
             }
@@ -462,7 +490,7 @@ pub fn run_e1(ctx: &Ctx, prop: P) -> i32 {
         let fam = F8;
         let plans: Vec<AsyncPlan> = [None, Some(Hint::All)]
             .into_iter()
-            .map(|hint| AsyncPlan { hint_mask: None, mask: K_CANDS | K_DEPS, pairs: false, hint, complete_cap: if q { 60 } else { 3000 }, dev_bound: if q { 1 } else { 2 }, dev_cap: if q { 60 } else { 3000 } })
+            .map(|hint| AsyncPlan { sort_cb: SortCallback::None, hint_mask: None, mask: K_CANDS | K_DEPS, pairs: false, hint, complete_cap: if q { 60 } else { 3000 }, dev_bound: if q { 1 } else { 2 }, dev_cap: if q { 60 } else { 3000 } })
             .collect();
         let opts = SweepOpts {
             threads: threads(),
@@ -489,7 +517,7 @@ pub fn run_e1(ctx: &Ctx, prop: P) -> i32 {
         let famb = F8b;
         let plans_b: Vec<AsyncPlan> = (0u64..32)
             .filter(|m| q == false || [0u64, 31, 24, 4, 28, 8, 16].contains(m))
-            .map(|m| AsyncPlan { hint_mask: Some(m), mask: K_CANDS | K_DEPS, pairs: false, hint: None, complete_cap: if q { 400 } else { 20000 }, dev_bound: 2, dev_cap: if q { 400 } else { 20000 } })
+            .map(|m| AsyncPlan { sort_cb: SortCallback::None, hint_mask: Some(m), mask: K_CANDS | K_DEPS, pairs: false, hint: None, complete_cap: if q { 400 } else { 20000 }, dev_bound: 2, dev_cap: if q { 400 } else { 20000 } })
             .collect();
         let opts = SweepOpts {
             threads: threads(),
@@ -522,7 +550,7 @@ pub fn run_e1(ctx: &Ctx, prop: P) -> i32 {
         // union requirements under every completion order of the candidate / dependency requests
         let q = ctx.tier == Tier::Quick;
         let fam = Decorated::new("F3 skeletons with unions", skeletons(), if q { 1 } else { 2 }, true, &|d| matches!(d, Deco::AddUnion(..) | Deco::Favor(_)));
-        let aplan = AsyncPlan { hint_mask: None, mask: K_CANDS | K_DEPS | if q { 0 } else { K_SORT | K_FILTER }, pairs: false, hint: None, complete_cap: if q { 2000 } else { 20000 }, dev_bound: 2, dev_cap: if q { 2000 } else { 20000 } };
+        let aplan = AsyncPlan { sort_cb: SortCallback::None, hint_mask: None, mask: K_CANDS | K_DEPS | if q { 0 } else { K_SORT | K_FILTER }, pairs: false, hint: None, complete_cap: if q { 2000 } else { 20000 }, dev_bound: 2, dev_cap: if q { 2000 } else { 20000 } };
         let opts = SweepOpts {
             threads: threads(),
             wall_limit_s: 120,
@@ -672,6 +700,22 @@ pub fn replay(path: &str) -> i32 {
                 1
             }
         }
+        Some("e2") => {
+            let a = crate::e2::replay(r);
+            let b = crate::e2::replay(r);
+            if a != b {
+                eprintln!("MACHINERY ERROR: replay is not deterministic: {a:?} vs {b:?}");
+                return 2;
+            }
+            if a.is_empty() {
+                println!("replay: no violation");
+                0
+            } else {
+                println!("replay: still fails: {a:?}");
+                println!("VIOLATION property={prop} replay={path}");
+                1
+            }
+        }
         Some("stuck-e1") => {
             let case: Case = serde_json::from_value(r["case"].clone()).expect("case");
             let cfgs: Vec<RunCfg> = serde_json::from_value(r["cfgs"].clone()).expect("cfgs");
@@ -794,20 +838,34 @@ pub fn run_e2(ctx: &Ctx) -> i32 {
     };
     let plans: Vec<AsyncPlan> = if q {
         vec![
-            AsyncPlan { hint_mask: None, mask: K_CANDS | K_DEPS, pairs: false, hint: None, complete_cap: 3000, dev_bound: 2, dev_cap: 3000 },
-            AsyncPlan { hint_mask: None, mask: K_CANDS | K_DEPS, pairs: false, hint: Some(Hint::All), complete_cap: 1000, dev_bound: 1, dev_cap: 1000 },
+            AsyncPlan { sort_cb: SortCallback::None, hint_mask: None, mask: K_CANDS | K_DEPS, pairs: false, hint: None, complete_cap: 3000, dev_bound: 2, dev_cap: 3000 },
+            AsyncPlan { sort_cb: SortCallback::None, hint_mask: None, mask: K_CANDS | K_DEPS, pairs: false, hint: Some(Hint::All), complete_cap: 1000, dev_bound: 1, dev_cap: 1000 },
             // two answers becoming ready inside one poll
-            AsyncPlan { hint_mask: None, mask: K_CANDS | K_DEPS, pairs: true, hint: None, complete_cap: 300, dev_bound: 1, dev_cap: 300 },
+            AsyncPlan { sort_cb: SortCallback::None, hint_mask: None, mask: K_CANDS | K_DEPS, pairs: true, hint: None, complete_cap: 300, dev_bound: 1, dev_cap: 300 },
             // hints on every second package only
-            AsyncPlan { hint_mask: Some(0b10101), mask: K_CANDS | K_DEPS, pairs: false, hint: None, complete_cap: 300, dev_bound: 1, dev_cap: 300 },
+            AsyncPlan { sort_cb: SortCallback::None, hint_mask: Some(0b10101), mask: K_CANDS | K_DEPS, pairs: false, hint: None, complete_cap: 300, dev_bound: 1, dev_cap: 300 },
         ]
     } else {
         vec![
-            AsyncPlan { hint_mask: None, mask: K_CANDS | K_DEPS, pairs: false, hint: None, complete_cap: 20000, dev_bound: 3, dev_cap: 50000 },
-            AsyncPlan { hint_mask: None, mask: K_CANDS | K_DEPS | K_FILTER | K_SORT, pairs: false, hint: Some(Hint::All), complete_cap: 20000, dev_bound: 2, dev_cap: 50000 },
-            AsyncPlan { hint_mask: None, mask: K_CANDS | K_DEPS, pairs: true, hint: None, complete_cap: 20000, dev_bound: 2, dev_cap: 50000 },
+            AsyncPlan { sort_cb: SortCallback::None, hint_mask: None, mask: K_CANDS | K_DEPS, pairs: false, hint: None, complete_cap: 20000, dev_bound: 3, dev_cap: 50000 },
+            AsyncPlan { sort_cb: SortCallback::None, hint_mask: None, mask: K_CANDS | K_DEPS | K_FILTER | K_SORT, pairs: false, hint: Some(Hint::All), complete_cap: 20000, dev_bound: 2, dev_cap: 50000 },
+            AsyncPlan { sort_cb: SortCallback::None, hint_mask: None, mask: K_CANDS | K_DEPS, pairs: true, hint: None, complete_cap: 20000, dev_bound: 2, dev_cap: 50000 },
         ]
     };
+    let mut plans = plans;
+    // providers whose sort_candidates calls back into the SolverCache (the reason the cache is handed to
+    // sort_candidates): the requests issued from inside the callback race with the solver's own
+    if prop == "C10" || prop == "C13" {
+        let (cap, dev) = if q { (300, 1) } else { (20000, 2) };
+        plans.push(AsyncPlan { sort_cb: SortCallback::DepsOfSorted, hint_mask: None, mask: K_CANDS | K_DEPS, pairs: false, hint: None, complete_cap: cap, dev_bound: dev, dev_cap: cap });
+        plans.push(AsyncPlan { sort_cb: SortCallback::DepsOfSorted, hint_mask: None, mask: K_CANDS | K_DEPS | K_SORT, pairs: false, hint: Some(Hint::All), complete_cap: cap / 2, dev_bound: dev, dev_cap: cap / 2 });
+        plans.push(AsyncPlan { sort_cb: SortCallback::CandsOfMentioned, hint_mask: None, mask: K_CANDS | K_DEPS, pairs: false, hint: None, complete_cap: cap / 2, dev_bound: dev, dev_cap: cap / 2 });
+    }
+    match std::env::var("VERIF_SORT_CB").as_deref() {
+        Ok("deps") => plans.iter_mut().for_each(|p| p.sort_cb = SortCallback::DepsOfSorted),
+        Ok("cands") => plans.iter_mut().for_each(|p| p.sort_cb = SortCallback::CandsOfMentioned),
+        _ => {}
+    }
     let fams = std::sync::Arc::new(fams);
     for (fi, (fam, stride)) in fams.iter().enumerate() {
         let opts = SweepOpts {
@@ -842,6 +900,9 @@ pub fn run_e2(ctx: &Ctx) -> i32 {
                     e2::check_c13_sync(case, Some(Hint::All), 2, !q, (fi, idx, 1), acc);
                     let p = AsyncPlan { complete_cap: if q { 30 } else { 300 }, dev_bound: 1, dev_cap: if q { 30 } else { 300 }, ..plans[0].clone() };
                     e2::check_c13_async(case, &p, (fi, idx, 2), acc);
+                    // the same with a provider whose sort_candidates fetches dependencies through the cache
+                    let p = AsyncPlan { sort_cb: SortCallback::DepsOfSorted, ..p };
+                    e2::check_c13_async(case, &p, (fi, idx, 3), acc);
                 }
             }
         });
